@@ -67,7 +67,7 @@ def main(tier):
                 run.inconclusive.append(r)
     jobs = [
         dict(path=H, fname='_c08_rows', params={}, timeout=400, self_reach=True, label='query callback: rows vs inputs',
-             bounds={'batch': '0..3 inputs drawn with repetition from 6 names (sub-directories, .gz, no extension, duplicate labels)', 'order': 'every order',
+             bounds={'batch': '0..3 inputs drawn with repetition from 6 names (sub-directories, .gz, no extension, two different files with the same label; the same file may also be listed twice)', 'order': 'every order',
                      'channel': 'positional / list file (with base dir, blank lines, padding) / signature file'}),
         dict(path=H, fname='_c08_channels', params={}, timeout=100, self_reach=True, label='exactly one input channel', bounds={'channels': 'all 8 combinations'}),
         dict(path=H, fname='_c08_dirs', params={}, timeout=100, self_reach=True, label='label ignores directories', bounds={'directories': 6, 'names': 6}),
